@@ -1,4 +1,5 @@
 import Driver.WireProto
+import RustbusModel.Model.Marshal
 namespace Driver.Wire
 open Rustbus Rustbus.Proto Rustbus.Wire Driver.WireProto
 
@@ -11,6 +12,14 @@ def handle : List String → String
     | some bo, some off, some t, some v =>
       match enc bo off t v with
       | some bs => toHex bs
+      | none => "refuse"
+    | _, _, _, _ => "bad-op"
+  -- the mechanism-level marshaller (placeholders, back-patching) on a buffer pre-filled with `off` zero bytes
+  | ["w.encm", bo, off, ty, v] =>
+    match parseBo bo, off.toNat?, parseTy ty, parseVal v with
+    | some bo, some off, some t, some v =>
+      match Marshal.marshalM bo t v (Bytes.zeros off) with
+      | some bs => toHex (bs.drop off)
       | none => "refuse"
     | _, _, _, _ => "bad-op"
   -- dec <bo> <off> <nfds|~> <ty> <hex>  → ok <consumed> <val> | reject
